@@ -383,6 +383,11 @@ func (m *QuestionModel) verifyTextMatch(answer Answer) error {
 func (m *QuestionModel) verifyParseError(answer Answer) error {
 	correctByIndex := answer.correctAnswerIndices()
 	parseErrors := generateParseErrors(m.AnswerChoices[0].(*txtarContent))
+	for i := range correctByIndex {
+		if i < 0 || i >= len(parseErrors) { // e.g. answer "e" for a question with four choices
+			return fmt.Errorf("%w (%s): answer %q has no matching choice, found %d choices", ErrWrongAnswer, m.Filename(), indexToLetter(i), len(parseErrors))
+		}
+	}
 	for i, parseError := range parseErrors {
 		if correctByIndex[i] && !parseError {
 			return fmt.Errorf("%w: %s: answer %s should have parse error", ErrWrongAnswer, m.Filename(), indexToLetter(i))
@@ -397,6 +402,11 @@ func (m *QuestionModel) verifyParseError(answer Answer) error {
 func (m *QuestionModel) verifyNoParseError(answer Answer) error {
 	correctByIndex := answer.correctAnswerIndices()
 	parseErrors := generateParseErrors(m.AnswerChoices[0].(*txtarContent))
+	for i := range correctByIndex {
+		if i < 0 || i >= len(parseErrors) { // e.g. answer "e" for a question with four choices
+			return fmt.Errorf("%w (%s): answer %q has no matching choice, found %d choices", ErrWrongAnswer, m.Filename(), indexToLetter(i), len(parseErrors))
+		}
+	}
 	for i, parseError := range parseErrors {
 		if correctByIndex[i] && parseError {
 			return fmt.Errorf("%w: %s: answer %s should not have parse error", ErrWrongAnswer, m.Filename(), indexToLetter(i))
